@@ -29,7 +29,7 @@ pub fn def() -> CheckDef {
         cpu_limit_s: 600,
         fault_kinds: "F-RE, F-SE at every k (enumerated), pairs",
         count_subruns: true,
-        expect_probes: &["pairs_exhaustive", "pairs_sampled", "workload_seam_calls"],
+        expect_probes: &["pairs_exhaustive_after_open", "pairs_sampled", "workload_seam_calls"],
     }
 }
 
@@ -167,12 +167,14 @@ struct RunOut {
     reads_after_fault: bool,
     trace: u64,
     flavours: [u64; 16],
+    /// seam calls made by open (the handle calls of the workload come after)
+    n_open: u64,
 }
 
 /// Execute the read-only workload on `image` with the given fault plan.
 fn execute(image: &[u8], truth: &Model, reference: Option<&[Res]>, work: &[Op], strict: bool, bufsize: Option<usize>, plan: &[Fault], retry: bool) -> RunOut {
     let disk = SimDisk::with_plan(image.to_vec(), plan.to_vec());
-    let mut out = RunOut { results: vec![], n_events: 0, violation: None, fired: Default::default(), reads_after_fault: false, trace: 0, flavours: [0; 16] };
+    let mut out = RunOut { results: vec![], n_events: 0, violation: None, fired: Default::default(), reads_after_fault: false, trace: 0, flavours: [0; 16], n_open: 0 };
     // open with retries
     let mut lib: Option<Lib> = None;
     for attempt in 0..4 {
@@ -212,6 +214,7 @@ fn execute(image: &[u8], truth: &Model, reference: Option<&[Res]>, work: &[Op], 
         }
     };
     lib.budget_base = 400_000;
+    out.n_open = disk.k();
     'ops: for (i, op) in work.iter().enumerate() {
         let mut tries = 0;
         loop {
@@ -491,7 +494,23 @@ pub fn run(case: &Case, _known: &BTreeSet<String>) -> Outcome {
                     break 'enumerate;
                 }
             }
-            // pairs
+            // pairs: all of them when the whole workload is short; for the tiny workloads (open
+            // alone makes well over a hundred calls) all pairs AFTER open, i.e. inside the
+            // handle calls
+            let n_open = r0.n_open;
+            if n > 150 && n > n_open && n - n_open <= 90 {
+                for k1 in n_open + 1..=n {
+                    if k1 % nslices != slice {
+                        continue;
+                    }
+                    for k2 in k1 + 1..=n + 4 {
+                        if !run_plan_mode(&mut o, vec![Fault { k: k1, kind: FaultKind::Fail }, Fault { k: k2, kind: FaultKind::Fail }], 0) {
+                            break 'enumerate;
+                        }
+                    }
+                }
+                o.stats.probe("pairs_exhaustive_after_open");
+            }
             if n <= 150 {
                 for k1 in 1..=n {
                     if k1 % nslices != slice {
